@@ -183,7 +183,7 @@ def sweep_stale_tmp(max_age_s=3 * 3600):
     left behind in the system temp directory: removed once they are hours old (a live run's are younger)."""
     import glob, shutil, tempfile
     now = time.time()
-    for pat in ("verif-c11-*", "verif-c19-*", "verif-gen-*", "verif-copy-*", "verif-c08-*", "verif-c02-*"):
+    for pat in ("verif-c*", "verif-gen-*"):   # verif-c11-, -c19h-, -cc-, -copy-, … (every MkdirTemp prefix of the harnesses)
         for d in glob.glob(os.path.join(tempfile.gettempdir(), pat)):
             try:
                 if os.path.isdir(d) and now - os.path.getmtime(d) > max_age_s:
